@@ -111,6 +111,7 @@ class SchemaModel:
         self.all_tags = sorted({e.tag for e in self.el.values()})
         self.all_attr_names = sorted({a for e in self.el.values() for a in e.attrs})
         self.kinds = self._reach()
+        self.default_projections = {cd for cd, _, _, cctx in self.children("default", "normal") if cctx == "default"}
         self._merge_doc(repo)
         self.wrapped = self._wrapped_kinds()
 
@@ -167,9 +168,11 @@ class SchemaModel:
             return "keywords: schema-only=%s XMLreference-only=%s" % (sorted(set(a.keywords) - set(d.keywords)), sorted(set(d.keywords) - set(a.keywords)))
         return None
 
-    def is_required(self, a, ctx, mode="any"):
-        if ctx == "default":
-            return a.req_schema            # XMLreference documents <default> children by reference only
+    def is_required(self, decl, a, ctx, mode="any"):
+        if ctx == "default" and decl in self.default_projections:
+            # direct children of <default> set the attributes of the class's dummy element (XMLreference, default/*: "sets the
+            # attributes of the dummy ... element"): only the schema file speaks about presence there
+            return a.req_schema
         return a.required if mode == "any" else a.req_both
 
     # ---- context-dependent views -----------------------------------------------------------------------------------
@@ -351,7 +354,7 @@ class SchemaModel:
             if r:
                 out.append((r, n))
         for n, a in attrs.items():
-            if self.is_required(a, ctx, mode) and n not in node.attrib:
+            if self.is_required(decl, a, ctx, mode) and n not in node.attrib:
                 out.append(("missing-required", n))
         present = set(node.attrib)
         for kind, bundles in self.cons(decl, ctx):
@@ -452,6 +455,7 @@ HINTS = {
     ("hfield", "nrow"): "2", ("hfield", "ncol"): "2",
     ("spatial_site", "site"): "s1", ("fixed_joint", "coef"): "1",
     ("bone", "bindpos"): "0 0 0", ("bone", "bindquat"): "1 0 0 0",
+    ("layer", "role"): "rgb",
 }
 # extra attributes/children that make a freshly created element of this kind compilable
 EXTRA_ATTR = {
@@ -664,12 +668,11 @@ class DocGen:
         M = self.M
         node = ET.Element(tag or M.el[decl].tag)
         attrs = M.attrs(decl, ctx)
-        if ctx != "default":
-            for n, v in REQUIRED_HINT.get(decl, {}).items():
-                if n in attrs and M.is_required(attrs[n], ctx):
-                    node.set(n, v)
+        for n, v in REQUIRED_HINT.get(decl, {}).items():
+            if n in attrs and M.is_required(decl, attrs[n], ctx):
+                node.set(n, v)
         for n, a in attrs.items():
-            if M.is_required(a, ctx) and n not in node.attrib:
+            if M.is_required(decl, a, ctx) and n not in node.attrib:
                 v = self.valid_value(decl, a)
                 if v is not None:
                     node.set(n, v)
@@ -719,30 +722,42 @@ def serialize(root):
 META = ("frame", "replicate")
 
 
-def unwrap_meta(root):
-    """copy of the document with every <frame>/<replicate> below <worldbody> dissolved: its children take its place in the
-    enclosing (world)body.  Counterfactual for 'the schema is not enforced inside frame/replicate'."""
+def unwrap_meta(root, target):
+    """copy of the document in which every <frame>/<replicate> ANCESTOR of `target` (an element of `root`) is dissolved: its
+    children take its place in the enclosing (world)body; `target` itself and everything else stay as they are.
+    -> (copy, number of dissolved elements).  Counterfactual for 'the schema is not enforced inside frame/replicate'."""
     import copy
+    target.set("vf__target", "1")
     r = copy.deepcopy(root)
+    del target.attrib["vf__target"]
+
+    def chain(node, trail):
+        if "vf__target" in node.attrib:
+            return trail
+        for ch in node:
+            t = chain(ch, trail + [node])
+            if t is not None:
+                return t
+        return None
+    anc = chain(r, []) or []
     n = 0
-    changed = True
-    while changed:
-        changed = False
-        for wb in r.findall("worldbody"):
-            for parent in list(wb.iter()):
-                for i, ch in enumerate(list(parent)):
-                    if ch.tag in META:
-                        idx = list(parent).index(ch)
-                        parent.remove(ch)
-                        for k, g in enumerate(list(ch)):
-                            parent.insert(idx + k, g)
-                        n += 1
-                        changed = True
+    for i in range(len(anc) - 1, 0, -1):            # innermost first; anc[0] is the root
+        ch, parent = anc[i], anc[i - 1]
+        if ch.tag in META:
+            idx = list(parent).index(ch)
+            parent.remove(ch)
+            for k, g in enumerate(list(ch)):
+                parent.insert(idx + k, g)
+            anc[i] = parent                           # the children now hang in the parent
+            n += 1
+    for e in r.iter():
+        e.attrib.pop("vf__target", None)
     return r, n
 
 
 def _selftest():
-    """tiny self-test on a hand-written schema-independent property: the validator accepts the prelude"""
+    """tiny self-test on hand-written schema-independent properties: the validator accepts the prelude; the documented language
+    (XMLreference) tightens the schema file where it is laxer; meta-elements dissolve"""
     from .. import build
     from ..mjconst import E
     dims = {k: getattr(E, k) for k in ("mjNREF", "mjNIMP", "mjNEQDATA", "mjNFLUID", "mjNBIAS", "mjNGAIN", "mjNDYN") if hasattr(E, k)}
@@ -751,7 +766,22 @@ def _selftest():
     bad = ET.fromstring(PRELUDE)
     bad.find("worldbody/body/geom").set("size", "1 2 3 4")
     assert [r for r, _, _ in M.validate(bad)] == ["too-many"]
-    return len(M.kinds)
+    assert [r for r, _, _ in M.validate(bad, "both")] == ["too-many"]
+    # XMLreference: sensor/user dim "int, required"; flexcomp/pin id "int(n), required"
+    assert M.el["user"].attrs["dim"].required and not M.el["user"].attrs["dim"].req_both
+    pid = M.el["pin"].attrs["id"]
+    assert M.check_value(pid, "0.5", "any") == "non-numeric" and M.check_value(pid, "0.5", "both") is None
+    assert M.check_value(pid, "abc", "both") == "non-numeric" and M.check_value(pid, "3 4", "any") is None
+    nkey = M.el["size"].attrs["nkey"]
+    assert M.check_value(nkey, "-4", "any") == "range" and M.check_value(nkey, "-4", "both") is None
+    assert M.check_value(M.el["statistic"].attrs["extent"], "-1", "both") == "range"
+    doc = ET.fromstring('<mujoco><worldbody><body><frame><geom/><replicate count="2"><site><frame/></site></replicate></frame></body></worldbody></mujoco>')
+    u, n = unwrap_meta(doc, doc.find("worldbody/body/frame/replicate/site"))
+    assert n == 2 and [c.tag for c in u.find("worldbody/body")] == ["geom", "site"] and len(u.find("worldbody/body/site")) == 1
+    u, n = unwrap_meta(doc, doc.find("worldbody/body/frame/replicate"))
+    assert n == 1 and [c.tag for c in u.find("worldbody/body")] == ["geom", "replicate"]
+    assert "vf__" not in serialize(doc) + serialize(u)
+    return len(M.kinds), len(M.wrapped)
 
 
 if __name__ == "__main__":
